@@ -1822,6 +1822,19 @@ func (m *Monitors) afterGC(h *H, repo string) {
 			m.flag(h, "C06.index-entry-without-blob", fmt.Sprintf("%s:%s is listed after the collection but answers %d", repo, tag, g.Status))
 		}
 	}
+	// C06: ... nor a child record: a digest whose blob is gone is simply unknown after the pass (MANIFEST_UNKNOWN), it
+	// is not "known, content missing" (MANIFEST_BLOB_UNKNOWN)
+	{
+		acc := map[string][]string{"Accept": {mtReal["ocim"], mtReal["ocii"], mtReal["dockm"], mtReal["dockl"]}}
+		for d, ok := range post.present {
+			if ok {
+				continue
+			}
+			if g := h.do("GET", "/v2/"+repo+"/manifests/"+d, reqOpt{mode: "get", hdr: acc}); g.Status == 404 && g.Code == "MANIFEST_BLOB_UNKNOWN" {
+				m.flag(h, "C06.index-entry-without-blob", fmt.Sprintf("%s is still recorded after the collection although its content is gone (MANIFEST_BLOB_UNKNOWN)", h.tk.tokDigest(d)))
+			}
+		}
+	}
 	// C06: unreferenced blobs are removed once the grace period has elapsed or is disabled
 	// (conservatively: anything named by any manifest-shaped content that is still present counts as referenced)
 	referenced := map[string]bool{}
